@@ -578,7 +578,7 @@ func ruleXBuf(p *Prog, r *Report) {
 		switch x := v.(type) {
 		case *ssa.Call:
 			if isCallTo(&x.Call, "bufio.NewReaderSize") {
-				if k, ok := constInt(x.Call.Args[1]); ok && k >= want {
+				if k, ok := constIntPhi(x.Call.Args[1]); ok && k >= want {
 					n++
 					return
 				}
